@@ -14,7 +14,7 @@
    The theorems quantify over ALL histories: any order, valid and invalid sizes, repeated values, parts of wider values. *)
 From Coq Require Import ZArith List Bool.
 From Verif Require Import ConstPool.ConstPoolModel ConstPool.ConstPoolSpec ConstPool.ConstPoolInv ConstPool.ConstPoolProofs
-  ConstPool.ConstPoolJudge ConstPool.ConstPoolJudgeProofs ConstPool.ConstPoolTreeBridge ConstPool.ConstPoolPartition ConstPool.ConstPoolSharing ConstPool.ConstPoolRBTree ConstPool.ConstPoolFrame ConstPool.ConstPoolGrowth.
+  ConstPool.ConstPoolJudge ConstPool.ConstPoolJudgeProofs ConstPool.ConstPoolTreeBridge ConstPool.ConstPoolPartition ConstPool.ConstPoolSharing ConstPool.ConstPoolRBTree ConstPool.ConstPoolFrame ConstPool.ConstPoolGrowth ConstPool.ConstPoolReads.
 From Verif Require Containers.TreeModel Containers.TreeGeneral Containers.TreeRotate.
 Import ListNotations.
 Local Open Scope Z_scope.
@@ -485,3 +485,18 @@ Print Assumptions C19_size_growth_step.
 Theorem C19_size_growth_bound_tight : psize (final tight_cmds) = budget tight_cmds /\ budget tight_cmds = 128.
 Proof. exact tight_example. Qed.
 Print Assumptions C19_size_growth_bound_tight.
+
+(* "exact contents" (round 8): add(data, size) reads exactly `size` bytes of `data` - the new pool (trees incl. the shared
+   sub-constants, gaps, size, alignment, min item size) and the answer are identical for any two buffers that agree on their
+   first `size` bytes, in every pool state and for every size, valid or not (no hypothesis).  The harness passes every constant
+   followed by 160 bytes of 0xA5 slack that the model never sees, so an over-read of the real add shows up as a difference. *)
+Theorem C19_add_reads_only_size : forall p d1 d2 size,
+  firstn (Z.to_nat size) d1 = firstn (Z.to_nat size) d2 -> cp_add p d1 size = cp_add p d2 size.
+Proof. exact add_reads_only_size_thm. Qed.
+Print Assumptions C19_add_reads_only_size.
+
+Theorem C19_add_reads_only_size_example :
+  cp_add cp_init [1; 2; 3; 4; 5; 6; 7; 8; 99; 98] 8 = cp_add cp_init [1; 2; 3; 4; 5; 6; 7; 8] 8 /\
+  snd (cp_add cp_init [1; 2; 3; 4; 5; 6; 7; 8; 99; 98] 8) = Ok 0.
+Proof. exact add_reads_example. Qed.
+Print Assumptions C19_add_reads_only_size_example.
